@@ -24,7 +24,7 @@
 From Coq Require Import List NArith ZArith Bool.
 From ApiFu Require Import Base.Sexp Exe.ExecData Exe.ExecModel Exe.ExecSpec Exe.ExecHyps
      Exe.ExecBaseProofs Exe.ExecSpecProofs Exe.ExecCacheProofs Exe.ExecProofs
-     Exe.ExecOrderProofs Exe.ExecShapeProofs Exe.ExecFuelProofs.
+     Exe.ExecOrderProofs Exe.ExecShapeProofs Exe.ExecFuelProofs Exe.ExecVisibleProofs.
 Import ListNotations.
 
 (** The executor finishes: no panic, fragment expansion never runs out of fuel. *)
@@ -68,6 +68,16 @@ Proof.
   exact (fun S D E fuel n W d errs Hn Hp Hd Hr p cands Hin =>
            proj1 (Forall_forall _ _) (exec_errors_complete S D E fuel Hn Hp n Hd W d errs Hr) (p, cands) Hin).
 Qed.
+
+(** ... where a failure null of the reference really is a null visible in its data, and the
+    errors that explain it lie under that position (their paths extend it). *)
+Theorem C01_failure_nulls_visible : forall S D E fuel W p cands,
+  In (p, cands) (failure_nulls (exec_spec S D E fuel W)) ->
+  match data (exec_spec S D E fuel W) with
+  | Some j => json_at j p = Some JNull
+  | None => p = []
+  end /\ Forall (fun e => exists r, e_path e = p ++ r) cands.
+Proof. exact failure_nulls_visible. Qed.
 
 (** stage 2: the memo cache of collectFields (keyed by object type name and the positions of the
     selections) is transparent: with and without it the executor returns the same response, for
@@ -167,6 +177,7 @@ Print Assumptions C01_exec_data_eq.
 Print Assumptions C01_exec_errors_sound.
 Print Assumptions C01_exec_errors_subseq.
 Print Assumptions C01_exec_errors_complete.
+Print Assumptions C01_failure_nulls_visible.
 Print Assumptions C01_collect_cache_transparent.
 Print Assumptions C01_exec_order.
 Print Assumptions C01_selection_set_order.
